@@ -65,16 +65,6 @@ Definition parse_fnum (t : list N) : fnum :=
     end in
   {| fneg := neg; fint := ip; ffrac := fp; fexp := ex |}.
 
-Definition all_digits (l : list N) : bool := forallb is_digit l.
-(* the shape assumed of strconv.AppendFloat(f, fmt, -1, 64) for finite f (hypothesis fmt_shape of the proofs) *)
-Definition fnum_shape (e : bool) (x : fnum) : bool :=
-  all_digits (fint x) && all_digits (ffrac x)
-  && (match fint x with [] => false | [_] => true | c :: _ => negb (c =? 48) end)
-  && (if e then match fexp x with
-                | Some (_, ds) => all_digits ds && (2 <=? List.length ds)%nat && (List.length (fint x) =? 1)%nat
-                | None => false end
-      else match fexp x with None => true | Some _ => false end).
-
 Fixpoint dec_oracle (l : list sexp) : list (N * (list N * list N)) :=
   match l with
   | SList [Atom b; Atom e; Atom f] :: r =>
@@ -310,6 +300,7 @@ Fixpoint reads_as (j : jv) (v : value) : bool :=
 Definition spec_json (ind : option (N * Z)) (v : value) (out : list N) : sexp :=
   let plain := strip_sgr out in
   if negb (utf8_check (List.length out) out) then SList [A "bad"; A "not-utf8"]
+  else if negb (forallb (fun b => (32 <=? b) && negb (b =? 127)) (strip_ws plain)) then SList [A "bad"; A "raw-control-byte"]
   else match json_decode plain with
   | None => SList [A "bad"; A "not-json"]
   | Some j =>
